@@ -71,6 +71,20 @@ def _cases(tier, rng):
                 if ctx == 'roll':
                     c['w'] = 3
                 yield c
+    # a user function that raises for some items, alone and inside a tee_map branch (first, middle, last): the plain run of a group
+    # ends with that error, so the keyed run cannot complete as if nothing had happened
+    for _ in range({'quick': 60, 'thorough': 500, 'search': 30}[tier]):
+        k, rr = rng.choice([(2, 0), (3, 1), (3, 0), (4, 3)])
+        bad = [['map', ['raise_if_mod', k, rr] + rng.choice([[], ['ZeroDivisionError'], ['TypeError']])]]
+        good = rng.choice([[['map', ['mul', 2]]], [], [['count', False]]])
+        brs = rng.choice([[bad, good], [good, bad], [good, bad, good], [bad, good, good]])
+        term = rng.choice([[['tee', rng.choice(['zip', 'combine_latest', 'merge']), brs]], bad, bad + [['count', False]]])
+        ng = rng.choice([1, 2, 3])
+        items = [{'t': [rng.randrange(ng), rng.choice([0, 1, 2, 3, 4, 5, 6, 7])]} for _ in range(rng.choice([2, 4, 7]))]
+        c = {'kind': 'dual', 'term': term, 'items': items, 'raising': True}
+        if rng.random() < 0.3:
+            c['ctx'] = 'split'
+        yield c
     n = {'quick': 1500, 'thorough': 10000, 'search': 600}[tier]
     for _ in range(n):
         yield gen_case(rng, tier)
@@ -227,6 +241,13 @@ def _oracle(case, r):
     if len(go) != len(order) or any([dec_item(h) for h in head] != gs[g] for g, (head, _) in zip(order, go)):
         return None             # the context operator itself misbehaves: that is C04/C05/C06's finding, not C01's
     mux_fatal = muxprop.has_fatal(r['chunks'])
+    if case.get('raising') and not mux_fatal:
+        for g, pl in r['plain'].items():
+            errs = [o['x'] for c_ in pl for o in c_ if 'x' in o]
+            if errs and errs[0] in ('ValueError', 'ZeroDivisionError', 'TypeError'):
+                return ('group %s with items %s: the plain pipeline %s ends with %s (raised by the user function) but the multiplexed run '
+                        'completes normally: %s' % (g, gs.get(g, gs.get(int(g)) if str(g).isdigit() else None), case['term'], errs[0],
+                                                    str(muxprop.outs(r['chunks']))[:200]))
     if r.get('empty_input'):
         return 'precondition-not-met'    # first / last / mean(reduce) applied to an empty sequence (possibly masked on the plain path)
     if any(muxprop.has_fatal(pl) for pl in r['plain'].values()):
